@@ -222,7 +222,11 @@ void run_and_judge(const std::string &fmt, bool null_format, const ArgList &a, V
     for (int i = 0; i < 4 && vd.why.empty(); i++) {
         const Outcome &o = *all[i];
         switch (o.kind) {
-        case K_OUTPUT: break;
+        case K_OUTPUT:
+            // the statement names the condition of each exception: a call the reference reads as malformed / missing-argument must not come back with output
+            if (vd.want.kind == ref::BAD_FORMAT) vd.why = std::string(sink[i]) + " produced output although a specifier is malformed or unterminated (expected ST::bad_format)";
+            else if (vd.want.kind == ref::OUT_OF_RANGE) vd.why = std::string(sink[i]) + " produced output although a field selects an argument position that was not supplied (expected std::out_of_range)";
+            break;
         case K_OTHER: vd.why = std::string(sink[i]) + ": " + o.what; break;
         case K_INVALID_ARGUMENT: if (!null_format) vd.why = std::string(sink[i]) + " threw std::invalid_argument (" + o.what + ") for a non-null format string"; break;
         case K_BAD_FORMAT:
